@@ -280,6 +280,43 @@ func runC19(c *runCtx) {
 			res.stat("format-not-stable") // C06's subject; counted, not judged here
 		}
 	}
+	// C'. lint: the exit status is the verdict on what the file holds afterwards, whichever way the text came in
+	{
+		tg := &textGen{r: c.rng.Fork()}
+		deep := "SELECT a\n" + strings.Repeat(" ", 24) + "FROM t\n"
+		lintTexts := []string{
+			"SELECT a FROM t\n", "select a   \nfrom t\n", "SELECT a  \n" + deep, deep, "SELECT a FROM t t2 JOIN u AS x ON t2.i = x.i   \n",
+			"SELECT a,\n  b\n\t  , c   \nFROM t\n", strings.Repeat("x", 120) + "\n", "SELECT a FROM t   \n" + strings.Repeat("y", 130) + "   \n", "",
+		}
+		for i := 0; i < c.n(25, 300); i++ {
+			lintTexts = append(lintTexts, tg.tame())
+		}
+		for ti, txt := range lintTexts {
+			for _, fl := range [][]string{nil, {"--fail-on-warn"}, {"--max-length", "40", "--fail-on-warn"}} {
+				f := write("lint/a.sql", txt)
+				plain := runCLI(bin, dir, "", append(append([]string{"lint"}, fl...), "lint/a.sql")...)
+				viaStdin := runCLI(bin, dir, txt, append(append([]string{"lint"}, fl...), "-")...)
+				res.count(fmt.Sprintf("lint|%d|%v", ti, fl), true)
+				wit := map[string]any{"flags": fl, "file": txt}
+				if after, _ := os.ReadFile(f); string(after) != txt {
+					res.fail("lint-modifies-file", "lint without --auto-fix rewrote the input file", wit, nil)
+				}
+				if (plain.exit == 0) != (viaStdin.exit == 0) && txt != "" {
+					res.fail("lint-exit-file-vs-stdin", fmt.Sprintf("lint exits %d on the file and %d on the same text from stdin", plain.exit, viaStdin.exit), wit, nil)
+				}
+				fixed := runCLI(bin, dir, "", append(append([]string{"lint", "--auto-fix"}, fl...), "lint/a.sql")...)
+				after, _ := os.ReadFile(f)
+				recheck := runCLI(bin, dir, "", append(append([]string{"lint"}, fl...), "lint/a.sql")...)
+				if fixed.exit == 0 && recheck.exit != 0 {
+					res.fail("lint-autofix-exit", fmt.Sprintf("lint --auto-fix exits 0 but the file it left still fails the same lint (exit %d)", recheck.exit), wit,
+						map[string]any{"file_after": truncate(string(after), 300), "recheck_output": truncate(recheck.stdout+recheck.stderr, 300)})
+				}
+				if fixed.exit != 0 && recheck.exit == 0 && plain.exit != 0 && string(after) != txt {
+					res.stat("lint-autofix-exit-nonzero-though-clean-afterwards") // reports what it found before fixing: not judged
+				}
+			}
+		}
+	}
 	// D. write failure injected at byte offsets of the new content (RLIMIT_FSIZE)
 	for _, cmdline := range [][]string{{"format", "-i"}, {"lint", "--auto-fix"}} {
 		old := "select   a,b  from   t   where  a=1  \n\n\n\nselect   c   from u  \n"
